@@ -368,6 +368,14 @@ func (a *ShellStreamAdapter) SetNextHop(nextHop identity.AgentID, sender PeerSen
 	a.peerSender = sender
 }
 
+// NextHop returns the peer the session's frames are sent to (the zero ID until
+// SetNextHop was called).
+func (a *ShellStreamAdapter) NextHop() identity.AgentID {
+	a.mu.Lock()
+	defer a.mu.Unlock()
+	return a.nextHop
+}
+
 // GetStreamID returns the stream ID.
 func (a *ShellStreamAdapter) GetStreamID() uint64 {
 	return a.streamID
